@@ -50,7 +50,20 @@ impl<'a, I: Kind<'a>, E: ErrTy<'a, I>> Clone for Bound<'a, I, E> {
 }
 pub type Env<'a, I, E> = Vec<Bound<'a, I, E>>;
 
-pub trait Kind<'a>: ValueInput<'a, Token: Tok, Span: SpanObs> + Sized + 'a {
+pub trait Kind<'a>: Input<'a, Token: Tok, Span: SpanObs> + Sized + 'a {
+    /// any / select / custom-with-next, not, lazy, nested_delimiters: only where tokens can be taken by value
+    fn vleaf<E: ErrTy<'a, Self>>(_g: &G) -> Result<P<'a, Self, E>, String> {
+        Err(format!("input kind {} cannot hand out tokens by value", Self::NAME))
+    }
+    fn vnot<E: ErrTy<'a, Self>>(_p: P<'a, Self, E>) -> Result<P<'a, Self, E>, String> {
+        Err(format!("input kind {} cannot hand out tokens by value", Self::NAME))
+    }
+    fn vlazy<E: ErrTy<'a, Self>>(_p: P<'a, Self, E>) -> Result<P<'a, Self, E>, String> {
+        Err(format!("input kind {} cannot hand out tokens by value", Self::NAME))
+    }
+    fn vnd<E: ErrTy<'a, Self>>(_a: P<'a, Self, E>, _st: char, _en: char, _others: &[(char, char)]) -> Result<P<'a, Self, E>, String> {
+        Err(format!("input kind {} cannot hand out tokens by value", Self::NAME))
+    }
     const NAME: &'static str;
     fn toslice<E: ErrTy<'a, Self>>(_p: P<'a, Self, E>) -> Result<P<'a, Self, E>, String> {
         Err(format!("to_slice unsupported on input kind {}", Self::NAME))
@@ -66,13 +79,9 @@ pub trait Kind<'a>: ValueInput<'a, Token: Tok, Span: SpanObs> + Sized + 'a {
     fn tpadded<E: ErrTy<'a, Self>>(_p: P<'a, Self, E>) -> Result<P<'a, Self, E>, String> {
         Err(format!("input kind {} is not text", Self::NAME))
     }
-    /// one_of / none_of: a Vec of tokens by default; text inputs use a string as the set, as users write it
-    fn one_of_set<E: ErrTy<'a, Self>>(ts: &[char], negate: bool) -> P<'a, Self, E> {
-        if negate {
-            none_of::<_, Self, X<E>>(tks::<Self::Token>(ts)).map(|t: Self::Token| Val::T(t.ch())).bxd()
-        } else {
-            one_of::<_, Self, X<E>>(tks::<Self::Token>(ts)).map(|t: Self::Token| Val::T(t.ch())).bxd()
-        }
+    /// one_of / none_of (a Vec of tokens; text inputs use a string as the set, as users write it)
+    fn one_of_set<E: ErrTy<'a, Self>>(_ts: &[char], _negate: bool) -> Result<P<'a, Self, E>, String> {
+        Err(format!("input kind {} cannot hand out tokens by value", Self::NAME))
     }
     /// any_ref() / select_ref!: only inputs that can lend their tokens (BorrowInput)
     fn any_ref<E: ErrTy<'a, Self>>() -> Result<P<'a, Self, E>, String> {
@@ -87,6 +96,81 @@ pub trait Kind<'a>: ValueInput<'a, Token: Tok, Span: SpanObs> + Sized + 'a {
     }
 }
 
+
+
+// ---- combinators that need ValueInput (tokens by value): not every Input has them (IterInput does not) ----
+pub fn value_leaf<'a, I: Kind<'a> + ValueInput<'a>, E: ErrTy<'a, I>>(g: &G) -> Result<P<'a, I, E>, String> {
+    Ok(match g {
+        G::Any => any::<I, X<E>>().map(|t: I::Token| Val::T(t.ch())).bxd(),
+        G::Sel(ts) => {
+            let ts = ts.clone();
+            chumsky::primitive::select(move |t: I::Token, _| if ts.contains(&t.ch()) { Some(Val::m("sel", Val::T(t.ch()))) } else { None }).bxd()
+        }
+        G::Cust(k, ok) => {
+            let (k, ok) = (*k, *ok);
+            custom(move |inp: &mut InputRef<'a, '_, I, X<E>>| {
+                let before = inp.cursor();
+                for _ in 0..k {
+                    if inp.next().is_none() {
+                        let sp = inp.span_since(&before);
+                        return Err(E::user(sp, "cu"));
+                    }
+                }
+                if ok {
+                    Ok(Val::C(k as i64))
+                } else {
+                    let sp = inp.span_since(&before);
+                    Err(E::user(sp, "cu"))
+                }
+            })
+            .bxd()
+        }
+        other => return Err(format!("not a value leaf: {other:?}")),
+    })
+}
+pub fn value_set<'a, I: Kind<'a> + ValueInput<'a>, E: ErrTy<'a, I>>(ts: &[char], negate: bool) -> P<'a, I, E> {
+    if negate {
+        none_of::<_, I, X<E>>(tks::<I::Token>(ts)).map(|t: I::Token| Val::T(t.ch())).bxd()
+    } else {
+        one_of::<_, I, X<E>>(tks::<I::Token>(ts)).map(|t: I::Token| Val::T(t.ch())).bxd()
+    }
+}
+pub fn value_nd<'a, I: Kind<'a> + ValueInput<'a>, E: ErrTy<'a, I>>(a: P<'a, I, E>, st: char, en: char, others: &[(char, char)]) -> Result<P<'a, I, E>, String> {
+    let (st, en) = (I::Token::from_ch(st), I::Token::from_ch(en));
+    Ok(match others.len() {
+        0 => a.recover_with(via_parser(nested_delimiters(st, en, [], |sp: I::Span| Val::m("nd", span_val(&sp))))).bxd(),
+        1 => {
+            let o = [(I::Token::from_ch(others[0].0), I::Token::from_ch(others[0].1))];
+            a.recover_with(via_parser(nested_delimiters(st, en, o, |sp: I::Span| Val::m("nd", span_val(&sp))))).bxd()
+        }
+        n => return Err(format!("unsupported nested_delimiters arity {n}")),
+    })
+}
+macro_rules! value_impl {
+    ($lt:lifetime) => {
+        fn vleaf<E: ErrTy<$lt, Self>>(g: &G) -> Result<P<$lt, Self, E>, String> {
+            value_leaf::<Self, E>(g)
+        }
+        fn vnot<E: ErrTy<$lt, Self>>(p: P<$lt, Self, E>) -> Result<P<$lt, Self, E>, String> {
+            Ok(p.not().map(|()| Val::U).bxd())
+        }
+        fn vlazy<E: ErrTy<$lt, Self>>(p: P<$lt, Self, E>) -> Result<P<$lt, Self, E>, String> {
+            Ok(p.lazy().bxd())
+        }
+        fn vnd<E: ErrTy<$lt, Self>>(a: P<$lt, Self, E>, st: char, en: char, others: &[(char, char)]) -> Result<P<$lt, Self, E>, String> {
+            value_nd::<Self, E>(a, st, en, others)
+        }
+    };
+}
+pub(crate) use value_impl;
+macro_rules! value_set_impl {
+    ($lt:lifetime) => {
+        fn one_of_set<E: ErrTy<$lt, Self>>(ts: &[char], negate: bool) -> Result<P<$lt, Self, E>, String> {
+            Ok(value_set::<Self, E>(ts, negate))
+        }
+    };
+}
+pub(crate) use value_set_impl;
 
 macro_rules! by_ref_impl {
     () => {
@@ -172,14 +256,11 @@ fn kw_bytes(arg: &str) -> KwB {
 impl<'a> Kind<'a> for &'a str {
     const NAME: &'static str = "str";
     text_impl!(&'a str, char, kw_str, nl_str());
-    fn one_of_set<E: ErrTy<'a, Self>>(ts: &[char], negate: bool) -> P<'a, Self, E> {
+    fn one_of_set<E: ErrTy<'a, Self>>(ts: &[char], negate: bool) -> Result<P<'a, Self, E>, String> {
         let set: String = ts.iter().collect();
-        if negate {
-            none_of::<_, Self, X<E>>(set).map(Val::T).bxd()
-        } else {
-            one_of::<_, Self, X<E>>(set).map(Val::T).bxd()
-        }
+        Ok(if negate { none_of::<_, Self, X<E>>(set).map(Val::T).bxd() } else { one_of::<_, Self, X<E>>(set).map(Val::T).bxd() })
     }
+    value_impl!('a);
     fn base(&self) -> (usize, usize) {
         (self.as_ptr() as usize, 1)
     }
@@ -189,6 +270,8 @@ impl<'a> Kind<'a> for &'a str {
 }
 impl<'a> Kind<'a> for &'a [char] {
     const NAME: &'static str = "slice";
+    value_impl!('a);
+    value_set_impl!('a);
     by_ref_impl!();
     fn base(&self) -> (usize, usize) {
         (self.as_ptr() as usize, std::mem::size_of::<char>())
@@ -209,6 +292,8 @@ pub type CSpan = chumsky::span::SimpleSpan<usize, i64>;
 
 impl<'a, const N: usize> Kind<'a> for &'a [char; N] {
     const NAME: &'static str = "array";
+    value_impl!('a);
+    value_set_impl!('a);
     by_ref_impl!();
     fn base(&self) -> (usize, usize) {
         (self.as_ptr() as usize, std::mem::size_of::<char>())
@@ -219,6 +304,8 @@ impl<'a, const N: usize> Kind<'a> for &'a [char; N] {
 }
 impl<'a> Kind<'a> for &'a [u8] {
     const NAME: &'static str = "bytes";
+    value_impl!('a);
+    value_set_impl!('a);
     by_ref_impl!();
     // text::newline() requires `&str: OrderedSeq<Token>` and so does not exist for byte inputs
     text_impl!(&'a [u8], u8, kw_bytes, Err::<P<'a, &'a [u8], chumsky::error::Rich<'a, u8>>, String>("text::newline is not available on byte inputs".into()));
@@ -231,6 +318,8 @@ impl<'a> Kind<'a> for &'a [u8] {
 }
 impl<'a, It: Iterator<Item = char> + 'a> Kind<'a> for chumsky::input::Stream<It> {
     const NAME: &'static str = "stream";
+    value_impl!('a);
+    value_set_impl!('a);
 }
 // Input::map over a slice of (token, span) pairs: can lend its tokens
 impl<'a, F> Kind<'a> for chumsky::input::MappedInput<char, SSpan, &'a [(char, SSpan)], F>
@@ -238,6 +327,8 @@ where
     F: Fn(&'a (char, SSpan)) -> (&'a char, &'a SSpan) + 'a,
 {
     const NAME: &'static str = "mapped";
+    value_impl!('a);
+    value_set_impl!('a);
     by_ref_impl!();
 }
 // Input::map over a boxed Stream of (token, span) pairs
@@ -246,12 +337,19 @@ where
     F: Fn((char, SSpan)) -> (char, SSpan) + 'a,
 {
     const NAME: &'static str = "mstream";
+    value_impl!('a);
+    value_set_impl!('a);
 }
-// (IterInput implements Input but not ValueInput, so none of the value primitives -- any, just, one_of, select --
-// can run on it: it cannot carry the grammar classes of the properties and is not instantiated here)
+// IterInput: (token, span) pairs from a cloneable iterator, rewinding by cloning the iterator.  It implements Input but
+// not ValueInput: just / end / empty and every combinator work on it, any / one_of / none_of / select / not / lazy do not
+impl<'a, It: Iterator<Item = (char, SSpan)> + Clone + 'a> Kind<'a> for chumsky::input::IterInput<It, SSpan> {
+    const NAME: &'static str = "iter";
+}
 // &Graphemes: tokens are extended grapheme clusters, spans byte offsets
 impl Kind<'static> for &'static chumsky::text::Graphemes {
     const NAME: &'static str = "graph";
+    value_impl!('static);
+    value_set_impl!('static);
     fn toslice<E: ErrTy<'static, Self>>(p: P<'static, Self, E>) -> Result<P<'static, Self, E>, String> {
         Ok(p.to_slice().map(|s: &'static chumsky::text::Graphemes| slice_val(s.as_str().as_ptr() as usize, s.as_str().len())).bxd())
     }
@@ -261,12 +359,18 @@ impl Kind<'static> for &'static chumsky::text::Graphemes {
 }
 impl<'a, In: ValueInput<'a, Token = char, Span = SSpan> + 'a> Kind<'a> for chumsky::input::WithContext<CSpan, In> {
     const NAME: &'static str = "wctx";
+    value_impl!('a);
+    value_set_impl!('a);
 }
 impl<'a, In: ValueInput<'a, Token = char, Span = SSpan> + 'a, F: Fn(SSpan) -> CSpan + 'a> Kind<'a> for chumsky::input::MappedSpan<CSpan, In, F> {
     const NAME: &'static str = "mapspan";
+    value_impl!('a);
+    value_set_impl!('a);
 }
 impl<'a, R: std::io::Read + std::io::Seek + 'a> Kind<'a> for chumsky::input::IoInput<R> {
     const NAME: &'static str = "io";
+    value_impl!('a);
+    value_set_impl!('a);
 }
 
 pub trait IntoVal: 'static {
@@ -504,43 +608,13 @@ where
                 .map(|s: Vec<I::Token>| Val::S(s.iter().map(|t| t.ch()).collect()))
                 .bxd()
         }
-        G::Any => any::<I, X<E>>().map(|t: I::Token| crate::val::Val::T(t.ch())).bxd(),
-        G::OneOf(ts) => I::one_of_set::<E>(ts, false),
-        G::NoneOf(ts) => I::one_of_set::<E>(ts, true),
-        G::Sel(ts) => {
-            let ts = ts.clone();
-            chumsky::primitive::select(move |t: I::Token, _| {
-                if ts.contains(&t.ch()) {
-                    Some(crate::val::Val::m("sel", crate::val::Val::T(t.ch())))
-                } else {
-                    None
-                }
-            })
-            .bxd()
-        }
+        G::Any | G::Sel(_) | G::Cust(..) => I::vleaf::<E>(g)?,
+        G::OneOf(ts) => I::one_of_set::<E>(ts, false)?,
+        G::NoneOf(ts) => I::one_of_set::<E>(ts, true)?,
         G::AnyR => I::any_ref::<E>()?,
         G::SelR(ts) => I::sel_ref::<E>(ts.clone())?,
         G::End => end::<I, X<E>>().map(|()| Val::U).bxd(),
         G::Empty => empty::<I, X<E>>().map(|()| Val::U).bxd(),
-        G::Cust(k, ok) => {
-            let (k, ok) = (*k, *ok);
-            custom(move |inp: &mut InputRef<'a, '_, I, X<E>>| {
-                let before = inp.cursor();
-                for _ in 0..k {
-                    if inp.next().is_none() {
-                        let sp = inp.span_since(&before);
-                        return Err(E::user(sp, "cu"));
-                    }
-                }
-                if ok {
-                    Ok(Val::C(k as i64))
-                } else {
-                    let sp = inp.span_since(&before);
-                    Err(E::user(sp, "cu"))
-                }
-            })
-            .bxd()
-        }
         G::Probe(id) => {
             let id = *id;
             custom(move |inp: &mut InputRef<'a, '_, I, X<E>>| {
@@ -630,7 +704,7 @@ where
                 None => Val::N,
             })
             .bxd(),
-        G::Not(a) => build(a, env)?.not().map(|()| Val::U).bxd(),
+        G::Not(a) => I::vnot::<E>(build(a, env)?)?,
         G::AndIs(a, b) => {
             let (a, b) = b2(a, b, env)?;
             a.and_is(b).bxd()
@@ -680,7 +754,7 @@ where
         G::ToSpan(a) => build(a, env)?.to_span().map(|s: I::Span| span_val(&s)).bxd(),
         G::ToSlice(a) => I::toslice::<E>(build(a, env)?)?,
         G::Boxed(a) => Parser::boxed(build(a, env)?).bxd(),
-        G::Lazy(a) => build(a, env)?.lazy().bxd(),
+        G::Lazy(a) => I::vlazy::<E>(build(a, env)?)?,
         G::Collect(it, sink) if sink == "str" => collect_str(it, env)?,
         G::Collect(it, sink) => with_iter(it, env, Cons::Collect(sink))?,
         G::Exact(it, n) => with_iter(it, env, Cons::Exact(*n))?,
@@ -697,17 +771,7 @@ where
                     .recover_with(skip_until(build(sk, env)?.ignored(), build(un, env)?.ignored(), || Val::E("su".into())))
                     .bxd(),
                 Strat::Retry(sk, un) => a.recover_with(skip_then_retry_until(build(sk, env)?.ignored(), build(un, env)?.ignored())).bxd(),
-                Strat::Nested(st, en, others) => {
-                    let (st, en) = (I::Token::from_ch(*st), I::Token::from_ch(*en));
-                    match others.len() {
-                        0 => a.recover_with(via_parser(nested_delimiters(st, en, [], |sp: I::Span| Val::m("nd", span_val(&sp))))).bxd(),
-                        1 => {
-                            let o = [(I::Token::from_ch(others[0].0), I::Token::from_ch(others[0].1))];
-                            a.recover_with(via_parser(nested_delimiters(st, en, o, |sp: I::Span| Val::m("nd", span_val(&sp))))).bxd()
-                        }
-                        n => return Err(format!("unsupported nested_delimiters arity {n}")),
-                    }
-                }
+                Strat::Nested(st, en, others) => I::vnd::<E>(a, *st, *en, others)?,
             }
         }
         G::Label(a, l, isctx) => {
